@@ -28,6 +28,7 @@ type Parser struct {
 	nextNewline        bool
 	continuationNeeded bool
 	prevPos            int
+	openRanges         int // number of `n:` without right side not (yet) accounted for by an index expression a[n:]
 
 	errors []string
 
@@ -137,6 +138,10 @@ func New(l *lexer.Lexer) *Parser {
 }
 
 func (p *Parser) Errors() []string {
+	if p.openRanges > 0 { // [n:] or (n:] ... : a range without end that is not an index would leave a nil node in the tree.
+		p.openRanges = 0
+		p.errors = append(p.errors, "range without right side is only valid as an index: a[n:]")
+	}
 	return p.errors
 }
 
@@ -504,6 +509,7 @@ func (p *Parser) parseInfixExpression(left ast.Node) ast.Node {
 	precedence := p.curPrecedence()
 	// handle [n:] case
 	if (expression.Token.Type() == token.COLON) && (p.peekToken.Type() == token.RBRACKET) {
+		p.openRanges++ // only valid as the index itself, checked off in parseIndexExpression.
 		return expression
 	}
 	p.nextToken()
@@ -694,6 +700,9 @@ func (p *Parser) parseIndexExpression(left ast.Node) ast.Node {
 	exp.Index = p.parseExpression(prec)
 	if isDot {
 		return exp
+	}
+	if r, ok := exp.Index.(*ast.InfixExpression); ok && r.Right == nil && r.Token.Type() == token.COLON {
+		p.openRanges--
 	}
 
 	if !p.expectPeek(token.RBRACKET) {
